@@ -12,6 +12,7 @@ import (
 	"time"
 
 	"gorm.io/gorm"
+	"gorm.io/gorm/clause"
 	"pgregory.net/rapid"
 
 	"verif/internal/cond"
@@ -23,7 +24,7 @@ import (
 
 func TestMain(m *testing.M) { harness.Main(m) }
 
-const rule = "C09: (i) chains made only of condition-free calls - Where/Not/Or with \"\", map{}, &T{}, []int{} or an empty grouped builder; Order, Limit, Scopes(identity), Unscoped, Select, Omit, Table, Model(&T{}), Session{} - ending in Update, Updates(map/struct), UpdateColumn, UpdateColumns(map/struct), Delete(&T{}), Delete(&T{}, empty inline), Delete of a zero-key / empty slice, for a plain model and five soft-delete models (one gorm.DeletedAt; two DeletedAt fields, the second with a custom column; one field with its own field/column name; DeletedAt inside an anonymous embedded struct; DeletedAt plus a prefixed embedded one), with AllowGlobalUpdate off / on in the config / on in a session: enumerated exhaustively to the stated length (model variants one call shorter) and drawn at random up to length 7; plus the used-chain-value shape q := db.Model(&T{}).<calls>; q.<Updates(map{}) | Updates(T{}) | Raw.Scan | Count | Find>; q.<nothing | Session{} | WithContext | Session{AllowGlobalUpdate:false} | Session{SkipHooks}>.<calls>.<finisher> (enumerated with one call before/after, random beyond), AllowGlobalUpdate off; off: the error is ErrMissingWhereClause, the recording driver saw no prepare/exec/query/commit, the table is unchanged; on: no error and every visible row is affected. (ii) chains mixing such calls with at least one effective condition drawn from the C02 units (also ones matching nothing, e.g. IN (NULL)), a keyed model value or keyed slice element: the error is never ErrMissingWhereClause (nor any other). non-trivial = at least two condition-free calls one of which is an empty condition form; distinct = model + AllowGlobalUpdate mode + chain + finisher"
+const rule = "C09: (i) chains made only of condition-free calls - Where/Not/Or with \"\", map{}, &T{}, []int{} or an empty grouped builder; Order, Limit, Scopes(identity), Unscoped, Select, Omit, Table, Model(&T{}), Session{}, Clauses(Returning{} / Returning{columns} / Locking / OrderBy / Limit) - ending in Update, Updates(map/struct), UpdateColumn, UpdateColumns(map/struct), Delete(&T{}), Delete(&T{}, empty inline), Delete of a zero-key / empty slice, for a plain model and five soft-delete models (one gorm.DeletedAt; two DeletedAt fields, the second with a custom column; one field with its own field/column name; DeletedAt inside an anonymous embedded struct; DeletedAt plus a prefixed embedded one) and four models with an application-assigned integer key (autoIncrement:false; composite integer key; each plain and soft-delete) whose table holds a row with key 0, with SkipDefaultTransaction off / config / session (enumerated one call shorter, random beyond) and with AllowGlobalUpdate off / on in the config / on in a session: enumerated exhaustively to the stated length (model variants one call shorter) and drawn at random up to length 7; plus the used-chain-value shape q := db.Model(&T{}).<calls>; q.<Updates(map{}) | Updates(T{}) | Raw.Scan | Count | Find>; q.<nothing | Session{} | WithContext | Session{AllowGlobalUpdate:false} | Session{SkipHooks}>.<calls>.<finisher> (enumerated with one call before/after, random beyond), AllowGlobalUpdate off; off: the error is ErrMissingWhereClause, the recording driver saw no prepare/exec/query/commit, the table is unchanged; on: no error and every visible row is affected. (ii) chains mixing such calls with at least one effective condition drawn from the C02 units (also ones matching nothing, e.g. IN (NULL)), a keyed model value or keyed slice element: the error is never ErrMissingWhereClause (nor any other). non-trivial = at least two condition-free calls one of which is an empty condition form; distinct = model + AllowGlobalUpdate mode + chain + finisher"
 
 // ---- models -----------------------------------------------------------------------------------------
 
@@ -112,10 +113,73 @@ type SPItem struct {
 
 func (SPItem) TableName() string { return "sp_items" }
 
+// KItem / KSItem: an integer key assigned by the application (no auto increment),
+// so a row with key 0 is an ordinary row; CItem / CSItem: a composite integer key.
+type KItem struct {
+	ID   int `gorm:"primaryKey;autoIncrement:false"`
+	Ca   int
+	Cb   int
+	Cs   string
+	Cn   *int
+	Ct   *string
+	Cor  int
+	Band string
+	Mark int
+}
+
+func (KItem) TableName() string { return "k_items" }
+
+type KSItem struct {
+	ID        int `gorm:"primaryKey;autoIncrement:false"`
+	Ca        int
+	Cb        int
+	Cs        string
+	Cn        *int
+	Ct        *string
+	Cor       int
+	Band      string
+	Mark      int
+	DeletedAt gorm.DeletedAt
+}
+
+func (KSItem) TableName() string { return "ks_items" }
+
+type CItem struct {
+	ID   int `gorm:"primaryKey"`
+	K2   int `gorm:"primaryKey"`
+	Ca   int
+	Cb   int
+	Cs   string
+	Cn   *int
+	Ct   *string
+	Cor  int
+	Band string
+	Mark int
+}
+
+func (CItem) TableName() string { return "c_items" }
+
+type CSItem struct {
+	ID        int `gorm:"primaryKey"`
+	K2        int `gorm:"primaryKey"`
+	Ca        int
+	Cb        int
+	Cs        string
+	Cn        *int
+	Ct        *string
+	Cor       int
+	Band      string
+	Mark      int
+	DeletedAt gorm.DeletedAt
+}
+
+func (CSItem) TableName() string { return "cs_items" }
+
 type modelKind struct {
-	Name string
-	Spec cond.TableSpec
-	Type reflect.Type
+	Name    string
+	Spec    cond.TableSpec
+	Type    reflect.Type
+	ZeroRow bool // the table holds a row whose key is 0 (composite: 0,0)
 }
 
 func (m modelKind) Zero() interface{} { return reflect.New(m.Type).Interface() } // &T{}
@@ -148,30 +212,48 @@ func (m modelKind) EmptySlicePtr() interface{} {
 func (m modelKind) soft() bool { return m.Spec.Soft || len(m.Spec.SoftCols) > 0 }
 
 var models = map[string]modelKind{
-	"plain":    {Name: "plain", Spec: cond.TableSpec{Name: "items"}, Type: reflect.TypeOf(cond.Item{})},
-	"soft":     {Name: "soft", Spec: cond.TableSpec{Name: "s_items", Soft: true}, Type: reflect.TypeOf(SItem{})},
-	"soft2":    {Name: "soft2", Spec: cond.TableSpec{Name: "s2_items", SoftCols: []string{"deleted_at", "archived_on"}}, Type: reflect.TypeOf(S2Item{})},
-	"softcol":  {Name: "softcol", Spec: cond.TableSpec{Name: "sc_items", SoftCols: []string{"removed_on"}}, Type: reflect.TypeOf(SCItem{})},
-	"softemb":  {Name: "softemb", Spec: cond.TableSpec{Name: "se_items", Soft: true}, Type: reflect.TypeOf(SEItem{})},
-	"soft2emb": {Name: "soft2emb", Spec: cond.TableSpec{Name: "sp_items", SoftCols: []string{"deleted_at", "hist_deleted_at"}}, Type: reflect.TypeOf(SPItem{})},
+	"plain":        {Name: "plain", Spec: cond.TableSpec{Name: "items"}, Type: reflect.TypeOf(cond.Item{})},
+	"soft":         {Name: "soft", Spec: cond.TableSpec{Name: "s_items", Soft: true}, Type: reflect.TypeOf(SItem{})},
+	"soft2":        {Name: "soft2", Spec: cond.TableSpec{Name: "s2_items", SoftCols: []string{"deleted_at", "archived_on"}}, Type: reflect.TypeOf(S2Item{})},
+	"softcol":      {Name: "softcol", Spec: cond.TableSpec{Name: "sc_items", SoftCols: []string{"removed_on"}}, Type: reflect.TypeOf(SCItem{})},
+	"softemb":      {Name: "softemb", Spec: cond.TableSpec{Name: "se_items", Soft: true}, Type: reflect.TypeOf(SEItem{})},
+	"soft2emb":     {Name: "soft2emb", Spec: cond.TableSpec{Name: "sp_items", SoftCols: []string{"deleted_at", "hist_deleted_at"}}, Type: reflect.TypeOf(SPItem{})},
+	"appkey":       {Name: "appkey", Spec: cond.TableSpec{Name: "k_items"}, Type: reflect.TypeOf(KItem{}), ZeroRow: true},
+	"appkey-soft":  {Name: "appkey-soft", Spec: cond.TableSpec{Name: "ks_items", Soft: true}, Type: reflect.TypeOf(KSItem{}), ZeroRow: true},
+	"compkey":      {Name: "compkey", Spec: cond.TableSpec{Name: "c_items", Extra: []string{"k2"}}, Type: reflect.TypeOf(CItem{}), ZeroRow: true},
+	"compkey-soft": {Name: "compkey-soft", Spec: cond.TableSpec{Name: "cs_items", Soft: true, Extra: []string{"k2"}}, Type: reflect.TypeOf(CSItem{}), ZeroRow: true},
 }
 
-var modelNames = []string{"plain", "soft", "soft2", "softcol", "softemb", "soft2emb"}
+var modelNames = []string{"plain", "soft", "soft2", "softcol", "softemb", "soft2emb", "appkey", "appkey-soft", "compkey", "compkey-soft"}
+
+// basic models are enumerated to the full length, the variants one call shorter
+func basicModel(n string) bool { return n == "plain" || n == "soft" }
+
+// sdtModes: SkipDefaultTransaction off / in the config / in a session
+var sdtModes = []string{"", "config", "session"}
 
 var aguModes = []string{"off", "config", "session"}
 
 // fixed table contents: three live rows, for the soft model two marked ones
-func baseRows(soft bool) []cond.InsertRow {
+func baseRows(m modelKind) []cond.InsertRow {
+	soft := m.soft()
 	one, s := 1, "a"
-	rows := []cond.InsertRow{
+	rows := []cond.InsertRow{}
+	if m.ZeroRow {
+		rows = append(rows, cond.InsertRow{Row: cond.Row{ID: 0, Ca: 2, Cb: 1, Cs: "ab"}})
+	}
+	rows = append(rows, []cond.InsertRow{
 		{Row: cond.Row{ID: 1, Ca: 1, Cb: 0, Cs: "a"}},
 		{Row: cond.Row{ID: 2, Ca: 0, Cb: 2, Cs: "b", Cn: &one}},
 		{Row: cond.Row{ID: 3, Ca: 3, Cb: 3, Cs: "", Ct: &s}},
-	}
+	}...)
 	if soft {
 		rows = append(rows,
 			cond.InsertRow{Row: cond.Row{ID: 101, Ca: 1, Cb: 0, Cs: "a"}, DeletedAt: "2030-01-02 03:04:05+00:00"},
 			cond.InsertRow{Row: cond.Row{ID: 102, Ca: 0, Cb: 2, Cs: "b", Cn: &one}, DeletedAt: "2030-01-02 03:04:05+00:00"})
+	}
+	for i := range rows {
+		rows[i].Extra = make([]int, len(m.Spec.Extra)) // further key parts are 0
 	}
 	return rows
 }
@@ -229,6 +311,21 @@ var alphabet = func() []freeCall {
 		freeCall{Name: `Table(t)`, Apply: func(db, _ *gorm.DB, m modelKind) *gorm.DB { return db.Table(m.Spec.Name) }},
 		freeCall{Name: `Model(&T{})`, Apply: func(db, _ *gorm.DB, m modelKind) *gorm.DB { return db.Model(m.Zero()) }},
 		freeCall{Name: `Session{}`, Apply: func(db, _ *gorm.DB, _ modelKind) *gorm.DB { return db.Session(&gorm.Session{}) }},
+		// condition-free Clauses
+		freeCall{Name: `Clauses(Returning{})`, Apply: func(db, _ *gorm.DB, _ modelKind) *gorm.DB { return db.Clauses(clause.Returning{}) }},
+		freeCall{Name: `Clauses(Returning{id,mark})`, Apply: func(db, _ *gorm.DB, _ modelKind) *gorm.DB {
+			return db.Clauses(clause.Returning{Columns: []clause.Column{{Name: "id"}, {Name: "mark"}}})
+		}},
+		freeCall{Name: `Clauses(Locking{UPDATE})`, Apply: func(db, _ *gorm.DB, _ modelKind) *gorm.DB {
+			return db.Clauses(clause.Locking{Strength: "UPDATE"})
+		}},
+		freeCall{Name: `Clauses(OrderBy{id})`, Apply: func(db, _ *gorm.DB, _ modelKind) *gorm.DB {
+			return db.Clauses(clause.OrderBy{Columns: []clause.OrderByColumn{{Column: clause.Column{Name: "id"}, Desc: true}}})
+		}},
+		freeCall{Name: `Clauses(Limit{1})`, Apply: func(db, _ *gorm.DB, _ modelKind) *gorm.DB {
+			one := 1
+			return db.Clauses(clause.Limit{Limit: &one})
+		}},
 	)
 	return a
 }()
@@ -297,6 +394,7 @@ var finIndex = func() map[string]int {
 type Case struct {
 	Model  string   `json:"model"`
 	AGU    string   `json:"allow_global_update"`
+	SDT    string   `json:"skip_default_transaction,omitempty"`
 	Pre    []string `json:"pre,omitempty"`
 	Prime  string   `json:"prime,omitempty"`
 	Derive string   `json:"derive,omitempty"`
@@ -306,15 +404,19 @@ type Case struct {
 
 func (c Case) String() string {
 	chain := strings.Join(append(append([]string{}, c.Calls...), c.Fin), ".")
+	agu := c.AGU
+	if c.SDT != "" {
+		agu += " SkipDefaultTransaction=" + c.SDT
+	}
 	if c.Prime == "" {
-		return fmt.Sprintf("model=%s AllowGlobalUpdate=%s db.%s", c.Model, c.AGU, chain)
+		return fmt.Sprintf("model=%s AllowGlobalUpdate=%s db.%s", c.Model, agu, chain)
 	}
 	q := strings.Join(append([]string{"Model(&T{})"}, c.Pre...), ".")
 	d := ""
 	if c.Derive != "" {
 		d = c.Derive + "."
 	}
-	return fmt.Sprintf("model=%s AllowGlobalUpdate=%s q := db.%s; q.%s; q.%s%s", c.Model, c.AGU, q, c.Prime, d, chain)
+	return fmt.Sprintf("model=%s AllowGlobalUpdate=%s q := db.%s; q.%s; q.%s%s", c.Model, agu, q, c.Prime, d, chain)
 }
 
 // primes are operations that run on the chain value first: they leave the
@@ -365,20 +467,23 @@ var deriveIndex = func() map[string]int {
 	return m
 }()
 
-func open(m modelKind, agu string) (*testdb.DB, *gorm.DB, error) {
-	cfg := gorm.Config{AllowGlobalUpdate: agu == "config", NowFunc: func() time.Time { return testdb.FixedNow }}
+func open(m modelKind, agu string, sdt string) (*testdb.DB, *gorm.DB, error) {
+	cfg := gorm.Config{AllowGlobalUpdate: agu == "config", SkipDefaultTransaction: sdt == "config", NowFunc: func() time.Time { return testdb.FixedNow }}
 	d := testdb.Open(testdb.Options{Config: cfg})
 	if err := m.Spec.Create(d.SQL); err != nil {
 		d.Close()
 		return nil, nil, err
 	}
-	if err := m.Spec.Insert(d.SQL, baseRows(m.soft())); err != nil {
+	if err := m.Spec.Insert(d.SQL, baseRows(m)); err != nil {
 		d.Close()
 		return nil, nil, err
 	}
 	db := d.DB
 	if agu == "session" {
 		db = db.Session(&gorm.Session{AllowGlobalUpdate: true})
+	}
+	if sdt == "session" {
+		db = db.Session(&gorm.Session{SkipDefaultTransaction: true})
 	}
 	d.Rec.Reset()
 	return d, db, nil
@@ -407,7 +512,7 @@ func forbiddenEvents(rec *recdrv.Recorder) string {
 // checkFree runs a condition-free chain and returns a violation text.
 func checkFree(c Case) (string, error) {
 	m := models[c.Model]
-	d, db, err := open(m, c.AGU)
+	d, db, err := open(m, c.AGU, c.SDT)
 	if err != nil {
 		return "", err
 	}
@@ -526,7 +631,13 @@ func checkFree(c Case) (string, error) {
 			return fmt.Sprintf("row id %d is %s, want %s", b.ID, a, want), nil
 		}
 	}
-	if res.RowsAffected != affected {
+	// with a RETURNING clause RowsAffected counts the rows scanned into the
+	// (single struct) destination, not the rows changed - not C09's subject
+	returning := false
+	for _, name := range append(append([]string{}, c.Pre...), c.Calls...) {
+		returning = returning || strings.HasPrefix(name, "Clauses(Returning")
+	}
+	if res.RowsAffected != affected && !returning {
 		return fmt.Sprintf("RowsAffected %d, want %d (every visible row)", res.RowsAffected, affected), nil
 	}
 	return "", nil
@@ -545,6 +656,9 @@ func freeNontrivial(c Case) bool {
 
 func freeClasses(c Case) []string {
 	cl := []string{"part:condition-free", "model:" + c.Model, "agu:" + c.AGU, "fin:" + c.Fin, fmt.Sprintf("len:%d", len(c.Calls))}
+	if c.SDT != "" {
+		cl = append(cl, "skip-default-transaction:"+c.SDT)
+	}
 	if c.Prime != "" {
 		cl = append(cl, "shape:used-chain-value", "prime:"+c.Prime, "derive:"+c.Derive)
 	}
@@ -591,7 +705,9 @@ func TestC09Exhaustive(t *testing.T) {
 				// the full length for the two basic models, one call less for the
 				// model variants (same guard path; the random part draws longer
 				// chains for them) - keeps the enumeration inside the time budget
-				if mn != "plain" && mn != "soft" && len(prefix) == maxLen && maxLen > 0 {
+				// (the session flavour of AllowGlobalUpdate differs from the config
+				// flavour only in how the flag reaches the statement: one call shorter too)
+				if (!basicModel(mn) || agu == "session") && len(prefix) == maxLen && maxLen > 0 {
 					continue
 				}
 				for _, f := range finishers {
@@ -626,18 +742,54 @@ func TestC09Exhaustive(t *testing.T) {
 	// the used-chain-value family: every preparing operation x derivation x
 	// one condition-free call before and after (quick: a reduced set of calls)
 	// x finisher x model, AllowGlobalUpdate off
-	mids := []string{"", `Where("")`, `Or(&T{})`, `Unscoped()`, `Model(&T{})`, `Session{}`}
+	mids := []string{"", `Where("")`, `Unscoped()`, `Session{}`}
 	if maxLen >= 3 {
 		mids = []string{""}
 		for _, a := range alphabet {
 			mids = append(mids, a.Name)
 		}
 	}
+	// SkipDefaultTransaction (config / session): chains one call shorter, every
+	// model and finisher, AllowGlobalUpdate off - without the implicit transaction
+	// nothing would roll a wrongly sent statement back
+	var sdtRec func(prefix []string)
+	sdtRec = func(prefix []string) {
+		for _, mn := range modelNames {
+			for _, sdt := range sdtModes[1:] {
+				for _, f := range finishers {
+					n++
+					if n%shards != shard {
+						continue
+					}
+					c := Case{Model: mn, AGU: "off", SDT: sdt, Calls: append([]string{}, prefix...), Fin: f.Name}
+					reportFree(c)
+					msg, err := checkFree(c)
+					if err != nil {
+						t.Fatalf("harness: %v, case: %s", err, c)
+					}
+					if msg != "" {
+						failed++
+						if failed <= 5 {
+							harness.SaveCase("TestC09Exhaustive", c)
+							t.Errorf("C09 violated: %s, case: %s", msg, c)
+						}
+					}
+				}
+			}
+		}
+		if len(prefix) >= maxLen-1 {
+			return
+		}
+		for _, a := range alphabet {
+			sdtRec(append(prefix, a.Name))
+		}
+	}
+	sdtRec(nil)
 	pres := []string{"", `Unscoped()`}
 	if maxLen >= 3 {
 		pres = []string{"", `Where("")`, `Unscoped()`, `Or(map{})`}
 	}
-	for _, mn := range modelNames {
+	for _, mn := range []string{"plain", "soft", "soft2", "softemb", "appkey-soft", "compkey"} {
 		for _, pr := range primes {
 			for _, dv := range derives {
 				for _, pre := range pres {
@@ -689,6 +841,9 @@ func TestC09Random(t *testing.T) {
 		for k := 3 + x.N(5); k > 0; k-- {
 			c.Calls = append(c.Calls, alphabet[x.N(len(alphabet))].Name)
 		}
+		if x.Pct(30) {
+			c.SDT = sdtModes[1+x.N(2)]
+		}
 		if x.Pct(45) {
 			// used chain value: part of the calls go before the preparing operation
 			c.AGU = "off"
@@ -728,6 +883,7 @@ type effCase struct {
 	Steps []step
 	Fin   string
 	Key   int // primary key of the model value / keyed slice element (0 = none)
+	SDT   string
 }
 
 func (c effCase) String() string {
@@ -739,7 +895,7 @@ func (c effCase) String() string {
 			parts[i] = s.Free
 		}
 	}
-	return fmt.Sprintf("model=%s AllowGlobalUpdate=off db.%s key=%d", c.Model, strings.Join(append(parts, c.Fin), "."), c.Key)
+	return fmt.Sprintf("model=%s AllowGlobalUpdate=off SkipDefaultTransaction=%s db.%s key=%d", c.Model, c.SDT, strings.Join(append(parts, c.Fin), "."), c.Key)
 }
 
 func (c effCase) calls() []cond.Call {
@@ -754,7 +910,7 @@ func (c effCase) calls() []cond.Call {
 
 func checkEffective(c effCase) (string, error) {
 	m := models[c.Model]
-	d, db, err := open(m, "off")
+	d, db, err := open(m, "off", c.SDT)
 	if err != nil {
 		return "", err
 	}
@@ -795,6 +951,9 @@ func TestC09Effective(t *testing.T) {
 	rapid.Check(t, func(rt *rapid.T) {
 		x := cond.G(rt)
 		c := effCase{Model: modelNames[x.N(len(modelNames))], Fin: finishers[x.N(len(finishers))].Name}
+		if x.Pct(30) {
+			c.SDT = sdtModes[1+x.N(2)]
+		}
 		cfg := cond.Cfg{MaxID: 3, LeadingOr: true, EmptyIn: true, MaxDepth: 2}
 		var calls []cond.Call
 		// the source of the effective condition: a unit, the key of the model value, or both
